@@ -20,6 +20,19 @@ add("C01", "model-based stateful property testing (rapid) against an ordered-lis
     "Generated operation histories (and every program up to length 3/4 over a 13-op alphabet on 40 configurations) are executed on the real Stack and on an ordered-list model; Len, Index of every position, Front, Back, IsEmpty and each call's return values are compared after every step. Exploration: holds on everything generated, complete only for the enumerated short programs.",
     "Trusted: the 80-line list model, rapid's generators/shrinker. Element values are tagged ints/strings. Front/Back/Remove on nil slots are compared leniently where the docs are silent.")
 
+add("C03", "model-based stateful property testing (rapid) steered around the capacity boundary, list model with capacity",
+    "Generated growth/shrink histories (push batches, fill-to-boundary with surplus, insert, transfer-into, marshal-into, pop, remove, reset) for capacities 1..6 (thorough 1..12) and the capacity-less constructor forms; after every step Len<=k, Cap/Avail/IsFull consistency and content equal to the model. Exploration only.",
+    "Trusted: list model, rapid. Transfer-into is only required to stay within capacity here (its result is C15).")
+add("C13", "model-based stateful property testing (rapid): ordered list + no-nesting flag, identity comparison of stored instances",
+    "Generated push batches mixing Stacks, aliases, pointers to aliases, Conditions, primitives and nil, interleaved with SetNoNesting(true/false/toggle), option noise, Pop/Remove, on Stacks of every kind and on Conditions; Len/Index*, CanNest and IsNesting compared with the model after every step. Exploration only.",
+    "Trusted: the model's definition of stack-like (Stack, alias, pointer to either). No push policy installed.")
+add("C14", "recorded-closure call logs and results vs a policy model (rapid-generated predicate tables and install/remove sequences)",
+    "Push policies defined by arbitrary accept/reject tables record every consultation; the log, stored content and Err() must equal the model's for every batch and capacity; install/remove sequences of the other closures are followed by every observation (Valid, String, IsEqual, Marshal, Unmarshal, Evaluate) compared with the closure's result or the built-in behaviour. Exploration only.",
+    "Trusted: closures are pure recorders; built-in behaviour is checked on a fixed two-element probe content (the general grammar is C02/C04/C05).")
+add("C15", "bounded-exhaustive grid enumeration + rapid-generated larger cells, snapshot-unchanged oracle through the VerifDump hook",
+    "Every cell of (source length 0..6, destination length 0..6, capacity none/len+0..7, LIFO/FIFO, nil elements, 12 destination forms, no-nesting/policy filters) is executed; source snapshot must be identical, a true result requires old++source, impossible transfers require false with an identical destination snapshot. Complete for the grid, exploration beyond it.",
+    "Trusted: VerifDump hook (reads only), snapshot rendering. A refusal when everything fits is accepted (statement constrains only a true result).")
+
 NOT_YET = {}
 
 ALL = ["C%02d" % i for i in range(1, 21)]
